@@ -56,9 +56,11 @@ def gen_deflate(tier, rng):
         for level in range(4):
             for ao in range(1, 49):
                 for eos in ((k % 2,) if tier == "quick" else (0, 1)):
-                    scns.append(igz.scenario(len(scns), "deflate", inp, level=level, wrap=[1, 0, 3, 2, 4][k % 5], lbuf=[3, 0][k % 2], mem=[1, 2][(k // 2) % 2], prefill=k % 3,
-                                             calls=[[n, ao, 0, eos]], tail_ai=n, tail_ao=1 << 17, cap=2000, meta={"family": "first-output-sweep", "cls": cls}))
-                    k += 1
+                    for table in ((0, 1, 2) if level == 0 else (0,)):     # level 0: default, static (zero-length stored header) and custom tables
+                        scns.append(igz.scenario(len(scns), "deflate", inp, level=level, wrap=[1, 0, 3, 2, 4][k % 5], lbuf=[3, 0][k % 2], mem=[1, 2][(k // 2) % 2], prefill=k % 3, table=table,
+                                                 calls=[[n, ao, 0, eos]] if table == 0 else [[n // 2, ao, [0, 1, 2][k % 3], 0], [n, 1 << 17, 0, eos]],
+                                                 tail_ai=n, tail_ao=1 << 17, cap=2000, meta={"family": "first-output-sweep", "cls": cls}))
+                        k += 1
     return scns
 
 def streams(rng, tier):
@@ -139,6 +141,7 @@ def run(tier, replay=None):
     nd, ni = len(dsc), len(isc)
     cov = {"states": nd + ni, "transitions": calls, "traces_validated_against_impl": nd + ni, "evaluations": nd + ni, "distinct_nontrivial": len(fams),
            "deflate_scenarios": nd, "inflate_scenarios": ni,
+           "state_machine_conformance": {"model": "spec/DeflateStreamOps.tla (tabulated by spec/gen/GenDeflateStream.tla)", "calls_not_in_model": igz.drift_count(out["deflate"][1] if "deflate" in out else {})},
            "rule": "call histories: every single split point of input (all for n<=40/48, boundary+random points beyond), (in-chunk,out-chunk) pairs from {1,2,7,8,9,16,17,33,256,257,...}, random schedules with flush-mode changes and end_of_stream announced on a later empty call, "
                    "refill-before-drain with 1..20-byte output, three chunk-memory disciplines (contiguous / fresh mapping unmapped when consumed / recycled and scribbled); compression traces are judged by TraceDeflate.tla "
                    "(accounting, progress, END reached, final stream decodes to the concatenated input); decompression traces (zlib/gzip-made streams in all 7 modes, one-shot and streaming) by TraceInflate.tla against the spec's decode of the same stream "
